@@ -64,6 +64,13 @@ def cases():
             for f in ("next", "var"):
                 for sf in ("viewport", "localsig", "localvar"):
                     out.append({"src": list(s), "tgt": list(t), "form": f, "sform": sf})
+    # the SOURCE is the result of an operator (a temporary of the source type, same value: s | s) instead of a plain object
+    for s in T:
+        if s[0] == "Bit":
+            continue
+        for t in T:
+            for f in ("assign", "next", "var", "ite", "ret", "itefull", "element"):
+                out.append({"src": list(s), "tgt": list(t), "form": f, "sform": "temp"})
     for t in T:
         for lit in ("int:0", "int:1", "int:5", "int:-1", "int:-3", "int:max", "int:max+1", "int:min", "int:min-1", "Null", "Full", "True", "str"):
             for f in LIT_FORMS:
@@ -162,7 +169,10 @@ def render_src(c):
     H += ["class E(cohdl.Entity):", "    clk = Port.input(Bit)", "    c = Port.input(Bit)"]
     sf = c.get("sform")
     pre = []
-    if sf:
+    if sf == "temp":
+        H.append(f"    s = Port.input({tstr(s)})")
+        src = "(self.s | self.s)"
+    elif sf:
         root = (VIEW_ROOT[s[0]], s[1])
         H.append(f"    s = Port.input({tstr(root)})")
         if sf == "viewport":
